@@ -257,6 +257,11 @@ Proof.
   rewrite p_tables_expected, p_dump_tables_expected by auto. reflexivity.
 Qed.
 
+Lemma hasClassFile_real d : In d (a_dbs c) -> hasClassFile fs (d_oid d) = true.
+Proof.
+  intros Hd. destruct (real_in d Hd) as (cd & ad & Hc & Hpos & _). unfold hasClassFile. rewrite Hc. lia.
+Qed.
+
 (* C12_remote_dump *)
 Theorem dump_all_ok : p_dump_all E fs = expected_remote_all E c.
 Proof.
@@ -265,8 +270,9 @@ Proof.
   rewrite (flat_map_ext_in' _ (fun d => if db_selected (withDefaults None) d
                                         then [restrict (expected_db E (withDefaults None) d)] else [])).
   - rewrite flat_map_if, map_map. reflexivity.
-  - intros d Hd. cbn [db_of db_name db_oid]. unfold db_selected. cbn [withDefaults o_dbfilter]. rewrite beq_refl.
+  - intros d Hd. unfold p_dump_all_db. cbn [db_of db_name db_oid]. unfold db_selected. cbn [withDefaults o_dbfilter]. rewrite beq_refl.
     destruct (has_prefix (d_name d) s_template); [reflexivity|]. cbn [negb andb orb].
+    rewrite hasClassFile_real by auto. cbn [negb]. rewrite Bool.andb_false_r.
     rewrite p_dump_database_expected by auto. reflexivity.
 Qed.
 
